@@ -558,8 +558,9 @@ class Function(Value):
         self, constantType: Type, value: Union[int, float, bool]
     ):
         # 1, 1.0 and True compare (and hash) equal in Python but are different
-        # constants, so the Python type is part of the key
-        key = (type(value), value)
+        # constants, so the Python type is part of the key. So is the type of
+        # the constant: the 1 of a float increment is not the int literal 1
+        key = (str(constantType), type(value), value)
         result = self.__constants.get(key, None)
         if result:
             return result
